@@ -86,13 +86,15 @@ pub async fn scenario() {
 			v.push(match rt::draw("op", 20) {
 				0..=11 => PlanOp::Call,
 				12..=14 => PlanOp::Batch(rt::draw_range("batch_n", 1, 3)),
-				15..=17 => PlanOp::Subscribe,
+				15..=16 => PlanOp::Subscribe,
+				17 => PlanOp::Handler,
 				_ => PlanOp::Notif,
 			});
 		}
 		plans.push(v);
 	}
-	let n_late = rt::draw_range("n_late", 1, 2);
+	let n_late = rt::draw_range("n_late", 1, 3);
+	let close_mode = if sweep_base || rt::param("fault_at").is_some() { 0 } else { *rt::pick("close_mode", &[0u32, 0, 0, 1, 2]) };
 	// the fault: (kind, position). kind: 0 send error, 1 recv error, 2 peer close, 3+k poison k
 	let (kind, pos, front): (Option<u32>, u64, bool) = if let Some(p) = rt::param("fault_at") {
 		let fk = rt::param("fault_kind").unwrap_or(0) as u32;
@@ -108,11 +110,12 @@ pub async fn scenario() {
 		};
 		(Some(kind), rt::draw_range("fault_pos", 1, 30) as u64, rt::chance("front", 1, 2))
 	};
-	rt::event("plan", format!("fronts={plans:?} late={n_late} max_conc={max_conc} id_str={id_str} presub={presub} fault={:?}@{pos}", kind.map(describe_fault)));
+	rt::event("plan", format!("fronts={plans:?} late={n_late} max_conc={max_conc} id_str={id_str} presub={presub} close_mode={close_mode} fault={:?}@{pos}", kind.map(describe_fault)));
 
 	let (wire, tx, rx) = Wire::new();
 	{
 		let mut w = wire.lock();
+		w.close_mode = close_mode;
 		if let Some(k) = kind {
 			w.fault_at = Some(pos);
 			w.fault = Some(match k {
@@ -182,7 +185,11 @@ pub async fn scenario() {
 	// late operations (after the fault, if it fired)
 	let first_phase = ops.lock().unwrap().len();
 	for i in 0..n_late {
-		let op = if i == 0 { PlanOp::Call } else { PlanOp::Subscribe };
+		let op = match i {
+			0 => PlanOp::Call,
+			1 => PlanOp::Subscribe,
+			_ => PlanOp::Handler,
+		};
 		let t0 = (rt::now_stamp(), tokio::time::Instant::now());
 		let rec = run_op(&client, 99, &op, &nonce_ctr, &mut held_all).await;
 		ops.lock().unwrap().push((rec, t0.0, t0.1));
@@ -210,7 +217,7 @@ pub async fn scenario() {
 	}
 	drop(held_all);
 	drop(client);
-	let _ = peer.await;
+	let _ = tokio::time::timeout(Duration::from_secs(5), peer).await;
 	if let Some(c) = consumer {
 		let _ = tokio::time::timeout(Duration::from_secs(1), c).await;
 	}
@@ -281,10 +288,13 @@ fn check(
 			Outcome::Batch(..) => "batch",
 			Outcome::Sub(..) => "subscribe",
 			Outcome::Notif(..) => "notification",
+			Outcome::Handler(..) => "handler",
 		};
 		let phase = if late { "late" } else { "pending" };
 		let mut on_err = |e: &str| {
-			if e.contains(PLACEHOLDER) {
+			if e.contains("ServiceDisconnect") {
+				rt::violate(P, "internal-error-leaked", format!("{what}:{phase}:{fault_name}"), format!("op {:?} failed with the internal ServiceDisconnect marker, which carries no cause: {e}", op.nonces));
+			} else if e.contains(PLACEHOLDER) {
 				rt::violate(P, "placeholder-cause", format!("{what}:{phase}:{fault_name}"), format!("op {:?} failed with the placeholder error instead of the disconnect cause: {e}", op.nonces));
 			} else if e.contains("RequestTimeout") {
 				let elapsed_before_fault = w.fault_fired_vtime.is_some_and(|ft| ft.duration_since(*inv_t) >= Duration::from_secs(60));
@@ -324,13 +334,14 @@ fn check(
 				}
 			}
 			Outcome::Call(Err(e), None) | Outcome::Sub(Err(e), None) | Outcome::Batch(Err(e)) => on_err(e),
-			Outcome::Notif(Err(e)) => on_err(e),
-			Outcome::Notif(Ok(())) => {}
+			Outcome::Notif(Err(e)) | Outcome::Handler(Err(e)) => on_err(e),
+			Outcome::Notif(Ok(())) | Outcome::Handler(Ok(())) => {}
 			_ => {}
 		}
 		// late operations after a noticed transport fault must fail
-		if late && transport_fault && noticed.is_some_and(|n| n < *inv_stamp) {
-			let failed = matches!(&op.outcome, Outcome::Call(Err(_), None) | Outcome::Sub(Err(_), None) | Outcome::Batch(Err(_)) | Outcome::Notif(Err(_)));
+		// (registering a notification handler involves no connection: it may still succeed while the client shuts down)
+		if late && transport_fault && noticed.is_some_and(|n| n < *inv_stamp) && !matches!(op.outcome, Outcome::Handler(_)) {
+			let failed = matches!(&op.outcome, Outcome::Call(Err(_), None) | Outcome::Sub(Err(_), None) | Outcome::Batch(Err(_)) | Outcome::Notif(Err(_)) | Outcome::Handler(Err(_)));
 			if !failed {
 				rt::violate(P, "late-op-not-failed", format!("{what}:{fault_name}"), format!("op {:?} issued after the connection failed did not fail: {:?}", op.nonces, op.outcome));
 			}
